@@ -155,7 +155,41 @@ def _sweep_structured(length):
     return col
 
 
+LONG_LENGTHS = sorted({k + d for k in (32, 64, 100, 127, 128, 200, 255, 256, 300, 400, 511, 512, 513, 600, 768, 1000, 1023, 1024, 1500, 2047, 2048, 3000,
+                                        4095, 4096, 8191, 8192, 10000, 16383, 16384, 32768, 65535, 65536) for d in (-1, 0, 1, 2)})
+LONG_PATTERNS = ["0123456789", "9", "19", "91", "0", "1234567", "31415926535897932384626433832795028841971"]
+
+
+def long_string(n, pat, shift):
+    p = LONG_PATTERNS[pat]
+    reps = (n + shift) // len(p) + 2
+    return (p * reps)[shift:shift + n]
+
+
+def _sweep_long(length):
+    """Long digit strings (the statement says: of any length): boundary lengths around powers of two and round numbers,
+    7 repeating patterns x 2 phase shifts; where a table-driven, regex-based or chunked implementation would change behaviour."""
+    utils = _lib()
+    errors = common.lib_errors()
+    col = Collector(PID, RULE)
+    n = 0
+    for pat in range(len(LONG_PATTERNS)):
+        for shift in (0, 1):
+            s = long_string(length, pat, shift)
+            n += 1
+            for v in check_string(s, utils, errors):
+                v.detail = v.detail[:300]
+                col.violation({"kind": "long", "n": length, "pat": pat, "shift": shift}, v)
+    col.count_enum(n, n, {"long-string": n, ("even" if length % 2 == 0 else "odd"): n, f"long-len>={1 << (length.bit_length() - 1)}": n})
+    return col
+
+
 def run_case(case):
+    if case.get("kind") == "mid-call":
+        from .. import midcall
+        return midcall.run_case(case)
+    if case.get("kind") == "long":
+        return check_string(long_string(case["n"], case["pat"], case["shift"]), _lib(), common.lib_errors())
     utils = _lib()
     errors = common.lib_errors()
     if case["kind"] == "string":
@@ -198,6 +232,8 @@ def main(ctx):
         col.merge(part)
     for part in common.pmap(_sweep_structured, list(range(6, 25 if ctx.quick else 41))):
         col.merge(part)
+    for part in common.pmap(_sweep_long, [n for n in LONG_LENGTHS if ctx.quick is False or n <= 20000]):
+        col.merge(part)
     col.exhaustive = True
     col.extra["exhaustive_scope"] = f"all digit strings of length 0..{maxlen} ({sum(10**k for k in range(maxlen + 1))} strings)"
     col.samples = [{"kind": "string", "s": "", "ref": ""}, {"kind": "string", "s": "1234", "ref": ref_tbcd("1234")},
@@ -205,7 +241,8 @@ def main(ctx):
 
     # random longer strings, ints and AVPs
     n_rand = 3000 if ctx.quick else 60000
-    digits = st.text(alphabet="0123456789", min_size=0, max_size=20)
+    digits = st.one_of(st.text(alphabet="0123456789", min_size=0, max_size=20), st.text(alphabet="0123456789", min_size=0, max_size=20),
+                       st.text(alphabet="0123456789", min_size=21, max_size=1400))
     numbers = st.one_of(st.integers(0, 10**20 - 1),
                         st.integers(1, 20).flatmap(lambda k: st.integers(10**(k - 1), 10**k - 1)))
     step = st.one_of(digits.map(lambda s: {"s": s, "junk": None}), st.integers(0, 50).map(lambda j: {"s": None, "junk": j}))
@@ -229,7 +266,10 @@ def main(ctx):
 
     common.hyp_collect(cases, body, n_rand, ctx.seed)
     list(common.first_use_sweep(col, "c18", "encode/decode agree with the reference - from the first call of the process, in every thread"))
-    ctx.required_classes = ["first-use-parked-mid-call", "string", "int", "avp", "even", "odd", "structured-long", "refused-call-then-digit-string"]
+    from .. import midcall
+    midcall.sweep(col, "c18", "encoding, decoding and the MSISDN / STN-SR AVPs carry the reference TBCD form - whatever another thread is encoding at the same time",
+                  ks=[1, 2] if ctx.quick else list(range(1, len(midcall.C18_STRINGS))), nmax=760, chunk=24)
+    ctx.required_classes = ["mid-call-parked", "first-use-parked-mid-call", "long-string", "string", "int", "avp", "even", "odd", "structured-long", "refused-call-then-digit-string"]
     ctx.assumptions = ["digit strings only (the statement's domain); ints have no leading zero; "
                        "special TBCD characters (*, #, a-c) are outside the statement"]
 
